@@ -260,6 +260,58 @@ func runC16(c *core.Ctx) error {
 	}
 	panicob.Discharge(c, r5, sites, panicob.Options{Table: table})
 
+	// ---- R16.3 (second half): a RefKey built from a URL keeps the fragment ESCAPED, because Resolve decodes the
+	// "#…" form itself; storing url.URL.Fragment (already decoded) makes nested references decode twice
+	if fu := prog.Func(pkgJP, "RefKey.FromURL"); fu == nil {
+		r3.Undecided("anchor:FromURL", "-", "jsonpointer.(*RefKey).FromURL not found")
+	} else {
+		found := false
+		for _, b := range fu.Blocks {
+			for _, in := range b.Instrs {
+				st, ok := in.(*ssa.Store)
+				if !ok {
+					continue
+				}
+				fa, ok := st.Addr.(*ssa.FieldAddr)
+				if !ok || fieldName(fa.X.Type(), fa.Field) != "Ptr" {
+					continue
+				}
+				found = true
+				var src func(v ssa.Value, depth int) string
+				src = func(v ssa.Value, depth int) string {
+					if depth > 4 {
+						return "?"
+					}
+					switch x := v.(type) {
+					case *ssa.BinOp:
+						if a := src(x.X, depth+1); a != "const" {
+							return a
+						}
+						return src(x.Y, depth+1)
+					case *ssa.Const:
+						return "const"
+					case *ssa.Call:
+						return core.CalleeName(x.Common())
+					case *ssa.UnOp:
+						if f, ok := x.X.(*ssa.FieldAddr); ok {
+							return "field " + fieldName(f.X.Type(), f.Field)
+						}
+					}
+					return "?"
+				}
+				switch got := src(st.Val, 0); got {
+				case "(*net/url.URL).EscapedFragment":
+					r3.Pass("RefKey.FromURL stores the escaped fragment")
+				default:
+					r3.Fail("FromURL:fragment-form", c.Pos(st.Pos()), fmt.Sprintf("RefKey.FromURL builds the pointer from %s instead of URL.EscapedFragment(): Resolve percent-decodes the '#' form again, so a reference followed from inside another reference (or from an external file) is decoded twice and designates a different node than the same text at the top level", got))
+				}
+			}
+		}
+		if !found {
+			r3.Undecided("FromURL:shape", c.Pos(fu.Pos()), "no store to RefKey.Ptr found in FromURL")
+		}
+	}
+
 	// ---- R16.6: the packages that call Resolve
 	r6 := c.NewRule("R16.6", "S1", "callers of jsonpointer.Resolve do not memoise resolved nodes under a lossy function of the pointer text", 1)
 	if cprog, err := c.Program("./jsonschema", "./openapi/parser", "./jsonpointer"); err != nil {
